@@ -5,8 +5,10 @@
 // Message (what+100); every hooked operation is a pre-emption point.  The ChanAbs monitor checks exactly-once / in-order in
 // both directions and that everything queued before the shutdown request was handled; the deadlock detector decides "lost
 // wake-up" / "shutdown does not complete".  Recorded traces are validated by TLC against spec/ThreadQueue/ThreadImpl.tla.
-#define private public
-#define protected public
+#ifndef VERIF_NO_PRIVATE
+# define private public
+# define protected public
+#endif
 #include "system/Thread.h"
 #undef private
 #undef protected
@@ -55,15 +57,19 @@ static void ObserveEvent(const vs::Event & e)
 {
    const char t = TName(e.tid);
    if (e.name == "Enqueue") {
-      const int d = (e.a[0] == Thread::MESSAGE_THREAD_INTERNAL) ? 0 : 1;
+      const int d = (e.a[0] == 0) ? 0 : 1;
       const uint32 m = e.a[3] ? tl_curMsg : 0;
       if (d == 0) {M.enqInt.push_back(m); if (m == 0) M.nullQueued = true;} else M.enqOwn.push_back(m);
       TL("Enq", t, d, (long) m, e.a[1], e.a[2]);
    }
-   else if (e.name == "Dequeue") TL("Deq", t, (e.a[0] == Thread::MESSAGE_THREAD_INTERNAL) ? 0 : 1, e.a[1], e.a[2]);
-   else if (e.name == "Signal")  TL("Signal", t, (e.a[0] == Thread::MESSAGE_THREAD_OWNER) ? 0 : 1, e.a[1]);
+   else if (e.name == "Dequeue") TL("Deq", t, (e.a[0] == 0) ? 0 : 1, e.a[1], e.a[2]);
+   else if (e.name == "Signal")  TL("Signal", t, (e.a[0] == 1) ? 0 : 1, e.a[1]);
    else if (e.name == "EntryCheck") TL("Entry", 'I', -1, e.a[0]);
 }
+#ifdef VERIF_NO_PRIVATE
+static int DirOfTSD(const void *) {return -1;}
+static int DirOfWC(const void *) {return -1;}
+#else
 static int DirOfTSD(const void * obj) {return (obj == &g_t->_threadData[Thread::MESSAGE_THREAD_INTERNAL]) ? 0 : ((obj == &g_t->_threadData[Thread::MESSAGE_THREAD_OWNER]) ? 1 : -1);}
 static int DirOfWC(const void * obj)
 {
@@ -72,6 +78,7 @@ static int DirOfWC(const void * obj)
    if (obj == &g_t->_threadData[Thread::MESSAGE_THREAD_OWNER]._waitCondition.GetObject()) return 1;
    return -1;
 }
+#endif
 static void ObserveYield(vs::LThread * me, int kind, const void * obj, long)
 {
    if (kind == vs::YIELD_SOCK_DRAIN) {const int d = DirOfTSD(obj); if (d >= 0) TL("Drain", TName(me->id), d);}
@@ -109,7 +116,9 @@ static void OwnerMain()
    for (int round=1; round<=g_plan.rounds; round++) {
       int sent = 0;
       if (round == 1) for (; sent<g_plan.preSends; sent++) {const uint32 m = 10+sent+1; tl_curMsg = m; TL("OSend", 'O', -1, m); (void) g_t->SendMessageToInternalThread(GetMessageFromPool(m)); vs::OpBoundary();}
+#ifndef VERIF_NO_PRIVATE
       TL("OStart", 'O', -1, g_t->_threadData[Thread::MESSAGE_THREAD_INTERNAL]._messages.HasItems() ? 1 : 0);
+#endif
       if (g_t->StartInternalThread().IsError()) M.V("StartInternalThread failed");
       vs::OpBoundary();
       while (sent < g_plan.nMsgs) {
@@ -130,7 +139,7 @@ static void OwnerMain()
          TL("OShutdown", 'O', -1);
          g_t->ShutdownInternalThread(true);
       }
-      for (int k=0; k<2; k++) vs::ForgetSocket(&g_t->_threadData[k]);    // CloseSockets() ran inside the join
+      vs::ForgetAllSockets();    // CloseSockets() ran inside the join
       TL("OJoin", 'O', -1);
       vs::OpBoundary();
    }
@@ -177,6 +186,9 @@ int main(int argc, char ** argv)
       char key[64]; snprintf(key, sizeof(key), "%d/%d/%d/%d/%u", g_plan.nMsgs, g_plan.preSends, g_plan.rounds, g_plan.nExtra, g_plan.rnd%8); distinct.insert(key);
       g_t = new EchoThread(sockets);
       g_record = (tf != NULL)&&(tracesWritten < (long) ntraces); g_trace.clear();
+#ifdef VERIF_NO_PRIVATE
+      g_record = false;     // trace lines need the addresses of the two ThreadSpecificData objects
+#endif
       vs::Reset(seed, vs::RANDOM); vs::S.onEvent = ObserveEvent; vs::S.onYield = ObserveYield; vs::S.onResume = ObserveResume; vs::S.stickiness = (int)(gen()%3)*35;
       vs::S.atomicLocks = g_record;   // recorded executions keep queue critical sections atomic, as the specification does
       M.Reset();
